@@ -2,6 +2,9 @@
 from common import *
 import c_gc
 import c_sched
+import c_api
+import c_txn
+import thms
 
 TRUSTED = [
     "Lean 4.33.0 kernel; axioms allowed in any property theorem: propext, Classical.choice, Quot.sound (checked by #print axioms on every run)",
@@ -140,6 +143,38 @@ def run_c03(tier, seed):
     return {"coverage": cov, "violations": viols, "summary": f"L-node scripts={c['scripts']} txns={c['transactions']} disagreements={c['model_vs_impl_disagreements']} truth_failures={c['impl_vs_ground_truth_failures']}"}
 
 
+def make_api_run(pid, with_txn=False, extra=None):
+    def run(tier, seed):
+        out = c_api.run_api_prop(pid, tier, seed)
+        if with_txn:
+            info, viol = c_txn.run(tier, seed)
+            out["coverage"]["correspondence_txn"] = info
+            if viol: out["violations"].append(viol)
+            out["summary"] += f" L-txn scripts={info['scripts']} disagreements={info['disagreements']}"
+        if extra:
+            extra(tier, seed, out)
+        return out
+    return run
+
+
+API_TEXT = {
+ "C01": ("transaction atomicity: M_txn theorems (nothing runs while a transaction is open; one end_of_transaction per outermost close) + S defines one delivery per listener per transaction", "nesting / late-listener profiles; callbacks are attributed to the script line at which they ran"),
+ "C02": ("the firing equations of S (one per primitive) and the theorem that S's table solves them; T-sched (C03) shows the scheduler computes the unique solution of such equations", "stream compositions with simultaneous sinks, in-transaction construction, self-merges"),
+ "C04": ("cell step/hold/accum fold theorems on S", "reads at every position relative to sends, long histories"),
+ "C05": ("switch equations of S", "switching among candidate sets with coinciding events"),
+ "C10": ("listener lifecycle lemmas on the script semantics of S", "registration/unlisten at every position, drops and collections"),
+ "C11": ("loop transparency lemmas on S", "loops closed inside their defining transaction, misuse panics"),
+ "C12": ("M_txn phase-order theorems + facts regenerated from the source (queue of hold commit / once detach / defer)", "defer/split/post with cells, both construction orders"),
+ "C13": ("lift/map invariants on S", "towers of map/lift over sinks, holds, loops and switches"),
+ "C14": ("M_txn bracket/quiescence theorems", "deep nesting of closure and scoped transactions, idle observables"),
+ "C15": ("send fold theorem on S.addSend", "coalescing sinks with several sends per transaction over nested transactions"),
+ "C17": ("Lazy memo-cell theorems + S lazy snapshot semantics", "lazies taken and forced at varying delays"),
+ "C18": ("router = filter equation of S", "routers with duplicate keys, routes requested at any time"),
+ "C06": ("collector soundness theorems on M_gc + contract check of the real gc graph", "drops/clones/collections interleaved with transactions"),
+ "C07": ("collector completeness/termination theorems on M_gc + leak check", "abandon programs at any point, drop everything, collect"),
+ "C09": ("order-independence: unique solution of S's equations and of the scheduler's fixed point", "metamorphic reorderings"),
+}
+
 HOOK_COMMITS = ["fdc44d7"]
 NOT_CLAIMED = {}
 
@@ -163,3 +198,16 @@ PROPS = {
             "level_note": "Trusted as for C08; raw Node graphs use a recording update closure (fires iff a dependency fired). API-level lifts/merges are covered under C02/C13.",
             "design_ref": "DESIGN.md section 6, C03"},
 }
+
+for _pid in ["C01", "C02", "C04", "C05", "C10", "C11", "C12", "C13", "C14", "C15", "C17", "C18", "C06", "C07", "C09"]:
+    _t = thms.THEOREMS.get(_pid, [])
+    if not _t: continue
+    PROPS[_pid] = {
+        "modules": thms.MODULES[_pid], "audit_import": thms.MODULES[_pid], "theorems": _t,
+        "run": make_api_run(_pid, with_txn=_pid in ("C01", "C12", "C14")), "replay": c_api.replay,
+        "technique": "Lean 4 theorems on " + API_TEXT[_pid][0] + "; differential correspondence of the real library with the Lean specification S on generated programs",
+        "level_text": "Theorems: " + API_TEXT[_pid][0] + ". Tie: every generated script (" + API_TEXT[_pid][1] + ") is executed on the real library in-process and on the executable Lean specification S, outputs compared line by line (callbacks with the line at which they ran, samples, forced lazies, panics, idle observables); any disagreement is minimised and reported with the script as replay.",
+        "level_note": "Trusted: Lean kernel (+propext, Classical.choice, Quot.sound), the hand-written S and models, harness and generators. The theorems are about S / the mechanism models; that the code refines S is checked by differential execution, not proved. 64-bit wrapping integers; single-threaded.",
+        "design_ref": "DESIGN.md section 6, " + _pid,
+    }
+
